@@ -1,4 +1,74 @@
+(* C17 -- Buffer acquisition accepts exactly the matching buffers.
+   Only statements; proofs live in Proof/P_BufFmt.v.  Model: Model/M_BufFmt.v
+   (check fx s ti itemsize: fx = fx_none is Buffer.c as it is, fx_all the proposed repairs).
+
+   FULL STATEMENT (not proved here, only tested by the correspondence run on ~1500/20000 generated
+   token lists per tier against the extracted [spec_accept]):
+     forall fx f ti isz, in_fragment f -> flat ti ->
+       check fx (render f) ti isz = Ok tt <-> spec_accept f ti isz = true
+   where in_fragment = every repeat count between 1 and INT_MAX, names without colon.
+   Proved below: the one-item corner of it (_partial), and the safety theorems for ALL byte strings. *)
 From Coq Require Import ZArith List Bool.
 From CyVerif Require Import Lib.CInt Model.M_BufFmt Proof.P_BufFmt.
-Theorem C17_stub : True. Proof. exact stub_true. Qed.
-Print Assumptions C17_stub.
+Import ListNotations.
+Open Scope Z_scope.
+
+(* partial: a format consisting of one type code (all 18 codes, incl. Zf/Zd/Zg) against every
+   scalar C type info: accepted iff the struct-module layout [(kind,size,0)] matches and the item
+   size agrees -- for the code as it is and for every repaired variant *)
+Theorem C17_accept_iff_layout_single_item_partial : forall fx t g sz isz,
+  In g [72; 73; 85; 82; 67] -> In sz [1; 2; 4; 8; 16; 32] -> (g = 82 \/ g = 67 -> 4 <= sz) -> (g = 72 -> sz = 1) ->
+  check fx (render (FPlain [TItem [] t])) (scalar_ti g sz) isz = Ok tt <->
+  spec_accept (FPlain [TItem [] t]) (scalar_ti g sz) isz = true.
+Proof. exact accept_iff_layout_single_item_partial. Qed.
+Print Assumptions C17_accept_iff_layout_single_item_partial.
+
+(* ALL byte strings, ALL flat type infos: the repaired parser returns a verdict (or meets the
+   separately characterised C int overflow of a count >= 2^31); it never reads past the NUL,
+   never dereferences ctx->head == NULL and never runs out of fuel (fuel = length + 1) *)
+Theorem C17_repaired_parser_terminates_in_bounds : forall s ti isz,
+  check fx_all s ti isz = Ok tt \/ check fx_all s ti isz = Err \/ check fx_all s ti isz = IntOvf.
+Proof. exact repaired_parser_terminates_in_bounds. Qed.
+Print Assumptions C17_repaired_parser_terminates_in_bounds.
+
+(* F19: for the code as it is, reads_within_string is false *)
+Theorem C17_reads_within_string_refuted : exists s ti isz, check fx_none s ti isz = OOB.
+Proof. exists [105; 58; 97; 98; 99], ti_int, 4. exact name_oob_witness. Qed.
+Print Assumptions C17_reads_within_string_refuted.
+
+(* F20: for the code as it is, parser_terminates is false: no fuel suffices on "( 2)i" *)
+Theorem C17_parser_terminates_refuted :
+  exists s ti isz, forall fuel, check_fuel fx_none fuel s ti isz = OutOfFuel.
+Proof. exists [40; 32; 50; 41; 105], ti_int, 4. exact hang_witness. Qed.
+Print Assumptions C17_parser_terminates_refuted.
+
+(* new finding: more items than members ("idi", numpy "T{i:a:=d:b:}" on int) dereferences NULL *)
+Theorem C17_no_null_deref_refuted :
+  check fx_none [105; 100; 105] ti_int 4 = NullDeref /\
+  check fx_none [84; 123; 105; 58; 97; 58; 61; 100; 58; 98; 58; 125] ti_int 4 = NullDeref /\
+  check fx_none [105; 40; 50; 41; 105] ti_int 4 = NullDeref.
+Proof. exact (conj null_witness (conj null_witness_numpy null_witness_array)). Qed.
+Print Assumptions C17_no_null_deref_refuted.
+
+(* the same inputs are rejected with ValueError by the repaired parser *)
+Theorem C17_repairs_reject_witnesses :
+  check fx_all [105; 58; 97; 98; 99] ti_int 4 = Err /\ check fx_all [40; 32; 50; 41; 105] ti_int 4 = Err /\
+  check fx_all [105; 100; 105] ti_int 4 = Err.
+Proof. exact (conj name_fixed_witness (conj hang_fixed_witness (proj1 null_fixed_witness))). Qed.
+Print Assumptions C17_repairs_reject_witnesses.
+
+(* repeat counts: __Pyx_BufFmt_ParseNumber returns the decimal value exactly when it fits a C int
+   and overflows the int (undefined behaviour) exactly when it does not *)
+Theorem C17_count_no_overflow : forall d ds rest,
+  digits (d :: ds) -> no_digit_head rest ->
+  (dval 0 (d :: ds) <= INT_MAX -> parse_number (d :: ds ++ rest) = Ok (Some (dval 0 (d :: ds), rest))) /\
+  (INT_MAX < dval 0 (d :: ds) -> parse_number (d :: ds ++ rest) = IntOvf).
+Proof. exact count_no_overflow. Qed.
+Print Assumptions C17_count_no_overflow.
+
+Example C17_nonvacuous :
+  digits [50; 49] /\ no_digit_head [105] /\ parse_number [50; 49; 105] = Ok (Some (21, [105])) /\
+  check fx_none [84; 123; 105; 58; 97; 58; 100; 58; 98; 58; 125] ti_id 16 = Ok tt /\
+  spec_accept (FRec [] [TItem [] Ci; TName [97]; TItem [] Cd; TName [98]] []) ti_id 16 = true /\
+  check fx_all [50; 49; 52; 55; 52; 56; 51; 54; 52; 56; 105] ti_int 4 = IntOvf.
+Proof. repeat split; try (repeat constructor); vm_compute; reflexivity. Qed.
